@@ -2,7 +2,7 @@
    frame, in stream order, independent of the splitting). *)
 From Coq Require Import ZArith NArith List Bool Lia.
 Import ListNotations.
-Require Import TC.Generated.Consts TC.Resp.Utf8 TC.Resp.Decimal TC.Resp.Parse TC.Resp.ParseProofs TC.Resp.Conn.
+Require Import TC.Generated.Consts TC.Resp.Utf8 TC.Resp.Decimal TC.Resp.Parse TC.Resp.ParseProofs TC.Resp.Local TC.Resp.Conn.
 Open Scope N_scope.
 
 Section CP.
@@ -18,6 +18,7 @@ Proof.
   destruct (parse_with_total depth buf) as (_ & _ & Hr & _).
   destruct (parse_with depth buf) as [o dp]. cbn [fst] in Hr.
   destruct o as [v c| | | |]; try reflexivity.
+  destruct (cap <? c)%nat; [reflexivity|].
   destruct (isq v); [reflexivity|].
   cbn [ok_range] in Hr. rewrite IH; [reflexivity|]. rewrite skipn_length. lia.
 Qed.
@@ -26,7 +27,8 @@ Lemma drain_all_unfold depth buf :
   drain_all depth buf =
   match parse_with depth buf with
   | (POk v c, depth') =>
-      if isq v then ([v], skipn c buf, depth', CQuit)
+      if (cap <? c)%nat then ([], buf, depth', CTooBig)
+      else if isq v then ([v], skipn c buf, depth', CQuit)
       else let '(vs, b, d, s) := drain_all depth' (skipn c buf) in (v :: vs, b, d, s)
   | (PNeedMore, depth') => ([], buf, depth', CNeedMore)
   | (PErr _, depth') => ([], buf, depth', CProtoError)
@@ -37,7 +39,7 @@ Proof.
   unfold Conn.drain_all. cbn [Conn.drain].
   destruct (parse_with_total depth buf) as (_ & _ & Hr & _).
   destruct (parse_with depth buf) as [o dp]. cbn [fst] in Hr.
-  destruct o as [v c| | | |]; try reflexivity. destruct (isq v); [reflexivity|].
+  destruct o as [v c| | | |]; try reflexivity. destruct (cap <? c)%nat; [reflexivity|]. destruct (isq v); [reflexivity|].
   cbn [ok_range] in Hr.
   replace (length buf) with (S (length (skipn c buf)) + (length buf - S (length (skipn c buf))))%nat
     by (rewrite skipn_length; lia).
@@ -72,11 +74,13 @@ Proof.
       cbn [ok_range] in Hr.
       rewrite (drain_all_unfold depth (buf ++ x)), He.
       rewrite skipn_app. replace (c - length buf)%nat with 0%nat by lia. cbn [skipn].
+      destruct (cap <? c)%nat; [cbn; split; reflexivity|].
       destruct (isq v); [cbn; split; reflexivity|].
       specialize (IH dp (skipn c buf) x ltac:(rewrite skipn_length; lia)). cbv zeta in IH.
       destruct (drain_all dp (skipn c buf)) as [[[vs b] d] s] eqn:Hd. cbn [fst snd] in *.
       destruct s.
       * rewrite IH. destruct (drain_all d (b ++ x)) as [[[vs2 b2] d2] s2]. reflexivity.
+      * destruct (drain_all dp (skipn c buf ++ x)) as [[[vs' b'] d'] s']. cbn [fst snd] in *. destruct IH as [-> ->]. split; reflexivity.
       * destruct (drain_all dp (skipn c buf ++ x)) as [[[vs' b'] d'] s']. cbn [fst snd] in *. destruct IH as [-> ->]. split; reflexivity.
       * destruct (drain_all dp (skipn c buf ++ x)) as [[[vs' b'] d'] s']. cbn [fst snd] in *. destruct IH as [-> ->]. split; reflexivity.
       * destruct (drain_all dp (skipn c buf ++ x)) as [[[vs' b'] d'] s']. cbn [fst snd] in *. destruct IH as [-> ->]. split; reflexivity.
@@ -102,7 +106,7 @@ Proof.
     destruct (parse_with_total depth buf) as (_ & _ & Hr & Hdk).
     destruct (parse_with depth buf) as [o dp] eqn:Hp. cbn [fst snd] in Hr, Hdk.
     destruct o as [v c| |e| |]; try discriminate.
-    + destruct (isq v); [discriminate|]. cbn [ok_range] in Hr.
+    + destruct (cap <? c)%nat; [discriminate|]. destruct (isq v); [discriminate|]. cbn [ok_range] in Hr.
       destruct (drain_all dp (skipn c buf)) as [[[vs' b'] d'] s'] eqn:Hd. inversion H; subst.
       apply (IH dp (skipn c buf) vs' b d ltac:(rewrite skipn_length; lia) Hd).
     + inversion H; subst. cbn [depth_kept] in Hdk. subst.
@@ -140,6 +144,9 @@ Proof.
     + assert (Hrun : run_nocap isq (b, d, CPanic) r = ([], (b, d, CPanic))).
       { clear. induction r as [|c r IH]; [reflexivity|]. cbn [run_nocap feed_nocap]. rewrite IH. reflexivity. }
       rewrite Hrun. cbn [fst snd]. rewrite app_nil_r. destruct Hx as [-> ->]. repeat split; auto. discriminate.
+    + assert (Hrun : run_nocap isq (b, d, CTooBig) r = ([], (b, d, CTooBig))).
+      { clear. induction r as [|c r IH]; [reflexivity|]. cbn [run_nocap feed_nocap]. rewrite IH. reflexivity. }
+      rewrite Hrun. cbn [fst snd]. rewrite app_nil_r. destruct Hx as [-> ->]. repeat split; auto. discriminate.
 Qed.
 
 (* two splittings of the same byte stream decode the same command sequence, end in the same
@@ -158,41 +165,124 @@ Proof.
   split; [etransitivity; [exact A1|symmetry; exact B1]|etransitivity; [exact A2|symmetry; exact B2]].
 Qed.
 
-(* the real loop with the buffer cap: it parses only buffers of at most [cap] bytes, the stored
-   leftover never exceeds the cap, the transient excess is at most one chunk; and while the cap is
-   not hit it is exactly the cap-less loop *)
+(* leftover of the parse loop is a suffix of its input: it never grows *)
+Lemma drain_leftover_le : forall f buf depth vs b d s, drain f depth buf = (vs, b, d, s) -> (length b <= length buf)%nat.
+Proof.
+  induction f as [|f IH]; intros buf depth vs b d s H; cbn [Conn.drain] in H.
+  - inversion H; subst. lia.
+  - destruct (parse_with depth buf) as [o dp]. destruct o as [v c| | | |]; try (inversion H; subst; lia).
+    destruct (cap <? c)%nat; [inversion H; subst; lia|].
+    destruct (isq v); [inversion H; subst; rewrite skipn_length; lia|].
+    destruct (Conn.drain isq f dp (skipn c buf)) as [[[vs' b'] d'] s'] eqn:Hd'. inversion H; subst.
+    apply IH in Hd'. rewrite skipn_length in Hd'. lia.
+Qed.
+
+(* the buffer limit of the real loop: between reads an open connection holds at most [cap] undecoded
+   bytes; during a read at most one chunk more; a frame longer than [cap] is never delivered *)
 Theorem buffer_cap (cn : conn) (chunk : bytes) :
   c_end cn = Open -> (length (c_buf cn) <= cap)%nat ->
   let r := conn_feed isq cn chunk in
   (length (c_buf cn ++ chunk) <= cap + length chunk)%nat /\
-  (c_end (snd r) <> ClosedByCap -> (length (c_buf cn ++ chunk) <= cap)%nat /\ (length (c_buf (snd r)) <= length (c_buf cn ++ chunk))%nat) /\
-  (c_end (snd r) = ClosedByCap -> fst r = []).
+  (length (c_buf (snd r)) <= length (c_buf cn ++ chunk))%nat /\
+  (c_end (snd r) = Open -> (length (c_buf (snd r)) <= cap)%nat).
 Proof.
   intros Ho Hl. cbv zeta. unfold conn_feed. rewrite Ho.
   split; [rewrite app_length; lia|].
-  destruct (Nat.ltb_spec cap (length (c_buf cn ++ chunk))) as [Hc|Hc]; cbn [fst snd c_end c_buf].
-  - split; [intros H; contradiction|reflexivity].
-  - destruct (drain_all (c_depth cn) (c_buf cn ++ chunk)) as [[[vs b] d] s] eqn:Hd. cbn [fst snd c_end c_buf].
-    split; [|intros H; destruct s; discriminate].
-    intros _. split; [exact Hc|].
-    (* the leftover is a suffix of the buffer *)
-    clear - Hd. revert Hd. generalize (c_depth cn). generalize (c_buf cn ++ chunk). intros buf depth.
-    unfold Conn.drain_all. generalize (S (length buf)). intros f. revert buf depth vs b d s.
-    induction f as [|f IH]; intros buf depth vs b d s H; cbn [Conn.drain] in H.
-    + inversion H; subst. lia.
-    + destruct (parse_with depth buf) as [o dp]. destruct o as [v c| | | |]; try (inversion H; subst; lia).
-      destruct (isq v); [inversion H; subst; rewrite skipn_length; lia|].
-      destruct (Conn.drain isq f dp (skipn c buf)) as [[[vs' b'] d'] s'] eqn:Hd'. inversion H; subst.
-      apply IH in Hd'. rewrite skipn_length in Hd'. lia.
+  destruct (drain_all (c_depth cn) (c_buf cn ++ chunk)) as [[[vs b] d] s] eqn:Hd. cbn [fst snd c_end c_buf].
+  split; [apply (drain_leftover_le _ _ _ _ _ _ _ Hd)|].
+  unfold end_of. destruct s; try discriminate. destruct (Nat.ltb_spec cap (length b)); [discriminate|]. intros _. assumption.
 Qed.
 
-Lemma conn_feed_nocap (cn : conn) (chunk : bytes) :
-  c_end cn = Open -> (length (c_buf cn ++ chunk) <= cap)%nat ->
-  fst (conn_feed isq cn chunk) = fst (feed_nocap isq (c_buf cn, c_depth cn, CNeedMore) chunk).
+Lemma closed_run (cn : conn) chunks : c_end cn <> Open -> conn_run isq cn chunks = ([], cn).
 Proof.
-  intros Ho Hl. unfold conn_feed, feed_nocap. rewrite Ho.
-  destruct (Nat.ltb_spec cap (length (c_buf cn ++ chunk))); [lia|].
-  destruct (drain_all (c_depth cn) (c_buf cn ++ chunk)) as [[[vs b] d] s]. reflexivity.
+  intros Hc. induction chunks as [|ch r IH]; [reflexivity|].
+  cbn [conn_run]. unfold conn_feed. destruct (c_end cn) eqn:E; [contradiction| | |]; rewrite IH; reflexivity.
+Qed.
+
+(* a pending remainder longer than the limit: whatever follows, nothing more is delivered and the
+   connection does not stay open *)
+Lemma pending_over_cap depth b y : drain_all depth b = ([], b, depth, CNeedMore) -> (cap < length b)%nat ->
+  let '(vs, b2, d2, s2) := drain_all depth (b ++ y) in vs = [] /\ (end_of s2 b2 = ClosedByCap \/ end_of s2 b2 = ClosedByError).
+Proof.
+  intros Hp Hl. rewrite (drain_all_unfold depth b) in Hp.
+  destruct (parse_with depth b) as [o dp] eqn:Hpb.
+  assert (Hn : fst (parse_with depth b) = PNeedMore).
+  { rewrite Hpb. destruct o as [v c| | | |]; try discriminate; [|reflexivity].
+    destruct (cap <? c)%nat; [discriminate|]. destruct (isq v); [discriminate|].
+    destruct (drain_all dp (skipn c b)) as [[[vs' b'] d'] s']. discriminate. }
+  rewrite (drain_all_unfold depth (b ++ y)).
+  destruct (parse_with depth (b ++ y)) as [o2 dp2] eqn:Hp2.
+  destruct o2 as [v c| | | |].
+  - pose proof (pending_prefix_shorter depth b y v c dp2 Hn Hp2) as Hc.
+    destruct (Nat.ltb_spec cap c); [|lia]. split; [reflexivity|left; reflexivity].
+  - split; [reflexivity|]. cbn [end_of]. rewrite app_length. destruct (Nat.ltb_spec cap (length b + length y)); [left; reflexivity|lia].
+  - split; [reflexivity|right; reflexivity].
+  - split; [reflexivity|right; reflexivity].
+  - split; [reflexivity|right; reflexivity].
+Qed.
+
+(* CHUNKING INDEPENDENCE OF THE REAL LOOP, buffer limit included: however the byte stream is cut into
+   reads, the commands delivered are those of decoding the whole stream at once, and the connection
+   is open afterwards exactly when the whole-stream reference is (closed by QUIT exactly when it is) *)
+Theorem chunking_independent_real : forall (chunks : list bytes) (cn : conn),
+  c_end cn = Open -> drain_all (c_depth cn) (c_buf cn) = ([], c_buf cn, c_depth cn, CNeedMore) -> (length (c_buf cn) <= cap)%nat ->
+  let r := conn_run isq cn chunks in
+  let '(vs, b, d, s) := drain_all (c_depth cn) (c_buf cn ++ concat chunks) in
+  fst r = vs /\ (c_end (snd r) = Open <-> end_of s b = Open) /\ (c_end (snd r) = ClosedByQuit <-> end_of s b = ClosedByQuit).
+Proof.
+  induction chunks as [|ch r IH]; intros cn Ho Hpend Hlen; cbv zeta.
+  - cbn [conn_run concat fst snd]. rewrite app_nil_r, Hpend. cbn [end_of].
+    destruct (Nat.ltb_spec cap (length (c_buf cn))); [lia|]. rewrite Ho. repeat split; auto; discriminate.
+  - cbn [conn_run concat]. unfold conn_feed. rewrite Ho.
+    pose proof (drain_ext (length (c_buf cn ++ ch)) (c_depth cn) (c_buf cn ++ ch) (concat r) ltac:(lia)) as Hx. cbv zeta in Hx.
+    rewrite <- app_assoc in Hx.
+    destruct (drain_all (c_depth cn) (c_buf cn ++ ch)) as [[[vs1 b1] d1] s1] eqn:Hd. cbn [fst snd] in Hx.
+    destruct s1.
+    + (* the read ends with "need more" *)
+      pose proof (drain_pending (length (c_buf cn ++ ch)) (c_depth cn) (c_buf cn ++ ch) vs1 b1 d1 ltac:(lia) Hd) as Hp2.
+      rewrite Hx. cbn [end_of].
+      destruct (Nat.ltb_spec cap (length b1)) as [Hover|Hfit].
+      * (* remainder over the limit: closed now; the reference delivers nothing more and is not open *)
+        rewrite closed_run by (cbn; discriminate). cbn [fst snd c_end]. rewrite app_nil_r.
+        pose proof (pending_over_cap d1 b1 (concat r) Hp2 Hover) as Hq.
+        destruct (drain_all d1 (b1 ++ concat r)) as [[[vs2 b2] d2] s2]. destruct Hq as [-> Hne].
+        rewrite app_nil_r. split; [reflexivity|]. split; split; intros H; try discriminate; destruct Hne as [Hne|Hne]; congruence.
+      * specialize (IH {| c_buf := b1; c_depth := d1; c_end := Open |} eq_refl Hp2 Hfit). cbv zeta in IH. cbn [c_buf c_depth] in IH.
+        destruct (conn_run isq {| c_buf := b1; c_depth := d1; c_end := Open |} r) as [v2 cn2].
+        destruct (drain_all d1 (b1 ++ concat r)) as [[[vs2 b2] d2] s2]. cbn [fst snd] in *.
+        destruct IH as (E1 & E2 & E3). subst v2. repeat split; auto; try apply E2; try apply E3.
+    + rewrite closed_run by (cbn; discriminate). cbn [fst snd c_end end_of]. rewrite app_nil_r.
+      destruct (drain_all (c_depth cn) (c_buf cn ++ ch ++ concat r)) as [[[vs b] d] s]. cbn [fst snd] in Hx. destruct Hx as [-> ->].
+      cbn [end_of]. repeat split; auto; discriminate.
+    + rewrite closed_run by (cbn; discriminate). cbn [fst snd c_end end_of]. rewrite app_nil_r.
+      destruct (drain_all (c_depth cn) (c_buf cn ++ ch ++ concat r)) as [[[vs b] d] s]. cbn [fst snd] in Hx. destruct Hx as [-> ->].
+      cbn [end_of]. repeat split; auto; discriminate.
+    + rewrite closed_run by (cbn; discriminate). cbn [fst snd c_end end_of]. rewrite app_nil_r.
+      destruct (drain_all (c_depth cn) (c_buf cn ++ ch ++ concat r)) as [[[vs b] d] s]. cbn [fst snd] in Hx. destruct Hx as [-> ->].
+      cbn [end_of]. repeat split; auto; discriminate.
+    + rewrite closed_run by (cbn; discriminate). cbn [fst snd c_end end_of]. rewrite app_nil_r.
+      destruct (drain_all (c_depth cn) (c_buf cn ++ ch ++ concat r)) as [[[vs b] d] s]. cbn [fst snd] in Hx. destruct Hx as [-> ->].
+      cbn [end_of]. repeat split; auto; discriminate.
+Qed.
+
+Corollary real_run_is_whole (chunks : list bytes) :
+  fst (conn_run isq conn_init chunks) = fst (whole isq (concat chunks)) /\
+  (c_end (snd (conn_run isq conn_init chunks)) = Open <-> snd (whole isq (concat chunks)) = Open) /\
+  (c_end (snd (conn_run isq conn_init chunks)) = ClosedByQuit <-> snd (whole isq (concat chunks)) = ClosedByQuit).
+Proof.
+  assert (Hp : drain_all 0 [] = ([], [], 0%nat, CNeedMore)) by (rewrite (drain_all_unfold 0 []); reflexivity).
+  pose proof (chunking_independent_real chunks conn_init eq_refl Hp ltac:(cbn; lia)) as H. cbv zeta in H.
+  cbn [conn_init c_buf c_depth app] in H. unfold whole.
+  destruct (drain_all 0 (concat chunks)) as [[[vs b] d] s]. exact H.
+Qed.
+
+(* two ways of cutting the same byte stream into reads: same commands, same open/closed outcome *)
+Corollary two_splittings_agree_real (cs1 cs2 : list bytes) : concat cs1 = concat cs2 ->
+  fst (conn_run isq conn_init cs1) = fst (conn_run isq conn_init cs2) /\
+  (c_end (snd (conn_run isq conn_init cs1)) = Open <-> c_end (snd (conn_run isq conn_init cs2)) = Open).
+Proof.
+  intros Heq. destruct (real_run_is_whole cs1) as (A1 & A2 & _). destruct (real_run_is_whole cs2) as (B1 & B2 & _).
+  rewrite Heq in A1, A2. split; [congruence|]. rewrite A2, B2. reflexivity.
 Qed.
 
 End CP.
